@@ -126,17 +126,22 @@ class RunModel(Analysis):
         self.gen_cancel = gen_cancel
         self.gen_bodyexc = gen_bodyexc
         self.inline_delegate = inline_delegate
+        self.max_cancels = 2
         self.log = []
         self._seen = set()
         self.skipped = set()
 
     # ------------------------------------------------- cancellation model
     def cancel_edge(self, ip, node, st, fr, msg):
-        """R11.3: an enclosing scheduler cancels once and then waits without
-        bound, so an activation receives at most one CancelledError"""
-        if not self.gen_cancel or st.a('cdelivered'):
+        """an activation can be cancelled by its enclosing scheduler at any suspension point, and a second
+        time while it is handling the first one: the canceller waits for it, but can be cancelled itself
+        meanwhile (three levels of nesting), and its handler then cancels its tasks again. Two deliveries are
+        modelled; a third one meets the same code in the same state as the second."""
+        n = st.a('cdelivered') or 0
+        if not self.gen_cancel or n >= self.max_cancels:
             return []
-        return [(st.set(cdelivered=True).note(ip.where(node, fr), msg), None, ('Cancelled',))]
+        return [(st.set(cdelivered=n + 1).note(ip.where(node, fr), msg if n == 0 else "cancelled again: " + msg),
+                 None, ('Cancelled',))]
 
     def registry_cover(self, x):
         """[j.<registry> for j in self.jobs if <only drops never-started or finished>]"""
@@ -607,9 +612,27 @@ class RunModel(Analysis):
     def on_back_edge(self, ip, st):
         # per-iteration bookkeeping does not survive the iteration
         a = st.auto
-        if a.get('incs') or a.get('count_ok') is not None or a.get('cancelled'):
-            return st.set(incs=0, count_ok=None, cancelled=frozenset())
+        # "this collection has been cancelled" survives an iteration only in a loop that starts nothing: in the
+        # main loop the collections are re-made; a loop that only waits again (a tidy that resumes its wait after
+        # being cancelled itself) still speaks of the same, cancelled, tasks
+        keep = bool(ip.loopctx) and not self._loop_spawns(ip.loopctx[-1].node)
+        if a.get('incs') or a.get('count_ok') is not None or (a.get('cancelled') and not keep):
+            return st.set(incs=0, count_ok=None, cancelled=a.get('cancelled') if keep else frozenset())
         return st
+
+    def _loop_spawns(self, node):
+        c = self.__dict__.setdefault('_lspawn', {})
+        if id(node) not in c:
+            res = False
+            for n in ast.walk(node):
+                if isinstance(n, ast.Call):
+                    name = n.func.attr if isinstance(n.func, ast.Attribute) else getattr(n.func, 'id', '')
+                    if name in ('create_task', 'ensure_future') or any(
+                            q.endswith('.' + name) and sg.spawns for q, sg in self.sigs.items()):
+                        res = True
+                        break
+            c[id(node)] = res
+        return c[id(node)]
 
     def keep_fact(self, ip, func, term):
         if term[0] in ('wdone', 'wpend', 'adone', 'apend'):
